@@ -104,6 +104,16 @@ def run(repo, rep):
               "the slice read is folded into the consumers only if none of them is an NPU memory copy (Op.Memcpy)",
               f"qualifying condition {sorted(cj_)} admits Op.Memcpy: a STRIDED_SLICE / SPLIT output consumed by a RESHAPE that became a Memcpy is copied with the length of the whole source "
               "(demonstrated: 1536 bytes into a 512-byte tensor, destination [2048,3584) with a 2560-byte scratch tensor)")
+    # ... and only into consumers that see the tensor in the shape in which the slice produces it: the offset and shape that
+    # move_splitsliceread_to_consumer hands over are coordinates of that shape, and it replaces the consumer's IFM shape wholesale
+    gen_ = q_[0].args[0]
+    cvar = gen_.generators[0].target.id if isinstance(gen_.generators[0].target, ast.Name) else "consumer"
+    view = [x for x in _cj2(gen_.elt) if f"{cvar}.ifm_shapes" in str(norm(x)) and "op.ofm_shapes" in str(norm(x))]
+    rep.check(bool(view), "C02-k", "ethosu/vela/tflite_graph_optimiser.py:remove_SplitSliceRead",
+              "the slice read is folded into a consumer only if the consumer's IFM shape for that tensor equals the slice's OFM shape",
+              f"no conjunct of {sorted(cj_)} compares `{cvar}.ifm_shapes` with `op.ofm_shapes`: an operator with a re-shaped view of its input (the max-pool of a lowered SOFTMAX views [1,H,W,C] as "
+              "[1,H*W,C,1]; the lowered MEAN likewise) applies the read offset in its own coordinates (demonstrated: SOFTMAX of the slice [2:6,3:9,:] of a [1,8,12,16] tensor: IFM read [0,3793) of a "
+              "1536-byte scratch tensor; 308 never-defined bytes read)")
     cw = hn.func("create_weights")
     # the address range of a stand-alone scale stream is built in the scale tensor's region, the others in the weight tensor's
     for i_ in ast.walk(cw):
@@ -119,6 +129,9 @@ def run(repo, rep):
     rep.clause("C02-m", "after a Reshape has been bypassed the producer keeps its own view of the OFM: no rewrite that runs later re-derives an operator's OFM shape from a tensor that the bypass may have re-shaped "
                "(necessary: the operator addresses its IFM with coordinates of its OFM shape) [rule shared with C03-i]")
     rule_shape_view(repo, rep)
+    rep.clause("C02-n", "the allocator total that is published as the extent of a memory type's tensor is compared with the hard limit of that memory type (the arena cache size for fast scratch under "
+               "spilling) on the path that records it, and an excess is an error: the per-access check does not see alignment and brick padding")
+    rule_published_total(repo, rep)
     rep.clause("C02-i", "byte offsets computed by graph rewrites use each tensor dimension in its layout position: 4-element shape unpackings name N,H,W,C (feature maps) / H,W,I,O (weights) in order")
     rule_shape_unpack(repo, rep)
 
@@ -754,3 +767,52 @@ def rule_shape_view(repo, rep, rule="C02-m"):
                   "the helper that the rewrites after the Reshape bypass rely on no longer keeps the operator's own OFM shape")
     rep.floor(rule, 1)
     return nfun, sites
+
+
+def rule_published_total(repo, rep):
+    """(n) must-pass-through: in allocate_tensors, the only writer of memory_used_per_type (C02-e), the recorded total is compared with
+    arch.mem_type_size(mem_type) and the excess branch raises; the comparison is not under the dry-test / failure early return."""
+    from ..exprnorm import conjuncts as _cj
+
+    ta = repo.mod("tensor_allocation")
+    fn = ta.func("allocate_tensors")
+    site = "ethosu/vela/tensor_allocation.py:allocate_tensors"
+    writes = [st for st in ast.walk(fn) if isinstance(st, (ast.Assign, ast.AugAssign)) and "memory_used_per_type[" in str(norm(st.targets[0] if isinstance(st, ast.Assign) else st.target))]
+    if not writes:
+        raise AnalysisError("allocate_tensors: the store into memory_used_per_type was not found")
+    totals = {str(norm(st.value)) for st in writes}
+    af = repo.mod("architecture_features").func("ArchitectureFeatures.mem_type_size")
+    lim_ok = any(isinstance(r, ast.Return) and str(norm(r.value)) == "self.arena_cache_size" for r in ast.walk(af))
+    rep.check(lim_ok, "C02-n", "ethosu/vela/architecture_features.py:ArchitectureFeatures.mem_type_size", "the hard limit of fast scratch under spilling is the arena cache size", "no `return self.arena_cache_size`")
+    guards = []
+    for i in ast.walk(fn):
+        if not isinstance(i, ast.If) or not any(isinstance(x, ast.Raise) for b in i.body for x in ast.walk(b)):
+            continue
+        cjs = _cj(i.test)
+        if any(isinstance(c, ast.Constant) and not c.value for c in cjs):
+            continue
+        for c in cjs:
+            if not (isinstance(c, ast.Compare) and len(c.ops) == 1):
+                continue
+            l, r = str(norm(c.left)), str(norm(c.comparators[0]))
+            tot, lim = (l, r) if "mem_type_size(" in r or "arena_cache_size" in r else (r, l)
+            if not ("mem_type_size(" in lim or "arena_cache_size" in lim):
+                continue
+            exceeds = (isinstance(c.ops[0], (ast.Gt, ast.GtE)) and tot == l) or (isinstance(c.ops[0], (ast.Lt, ast.LtE)) and tot == r)
+            if exceeds and (tot in totals or "memory_used_per_type[" in tot):
+                guards.append(i)
+    ok = bool(guards)
+    detail = f"no `if <{' / '.join(sorted(totals))}> > arch.mem_type_size(...)` with a raise"
+    if ok:
+        # not on the dry-test / failed path only: the guard is not nested in an `if` whose test mentions dry_test and whose body returns
+        for g in guards:
+            cur = ta.parents.get(g)
+            while cur is not None and cur is not fn:
+                if isinstance(cur, ast.If) and "dry_test" in str(norm(cur.test)) and g in list(ast.walk(ast.Module(body=cur.body, type_ignores=[]))):
+                    ok = False
+                    detail = "the comparison is made on the dry-test path only"
+                cur = ta.parents.get(cur)
+    rep.check(ok, "C02-n", site, "the total recorded in memory_used_per_type (published as the tensor's size) is compared with arch.mem_type_size(mem_type); an excess raises",
+              detail + ": with --optimise Size the scheduler's limit is the minimal schedule's peak, not the cache; accesses are checked, the rounded total is not (demonstrated: three 3x3 convolutions "
+              "on 24x24x8, ethos-u65-256 Dedicated_Sram, --arena-cache-size 4600: scratch_fast tensor of 4608 bytes)")
+    rep.floor("C02-n", 2)
